@@ -53,7 +53,10 @@ def check_p2p(case):
     name = case["cls"]
     cls = gp.CLASSES[name]
     build = gp.PAYLOADS[name][1]
-    obj = build(case["obj"])  # check_validity=True inside: the library vouches for the object
+    try:
+        obj = build(case["obj"])  # check_validity=True inside: the library vouches for the object
+    except LIBEXC:
+        return Outcome(False, (name, "generator-refused"))
     raw = obj.serialize()
     back = cls.parse(raw)
     lossy = name in gp.LOSSY and gp.LOSSY[name](case["obj"])
